@@ -216,10 +216,7 @@ def servo_maps(r, m):
 
 def run(cx):
     cx.explanation = (
-        "single-writer inventory of every state attribute, guard/bounds analysis of the writer bodies, path-sensitive "
-        "validate-before-mutate analysis of every public method with interval discharge of calls that can raise after the "
-        "first mutation, rational normal forms of the servo maps and interpolation formulas, call-count analysis of the "
-        "sleeps; float rounding of ramp end values is not decided"
+        "every Led/RGBLed/Servo/DCMotor clause of the property evaluated on the host classes themselves (checker's interpreter, sleeps recorded with the Utils.sleep contract) from every state of a grid and for in-range, boundary and out-of-range arguments: invariants, round trips, wait counts, monotone fades/ramps, atomicity of raising calls; interpolation kernel on a dense grid. Float rounding of ramp end values is not decided."
     )
     mods = {c: mod(f) for c, f in CLASSES.items()}
     for m in mods.values():
